@@ -696,6 +696,14 @@ impl NetcodeServer {
     }
 }
 
+#[cfg(feature = "verif_hooks")]
+impl NetcodeServer {
+    /// Addresses with a half-open (pending) session and the client id they requested.
+    pub fn verif_pending(&self) -> Vec<(SocketAddr, u64)> {
+        self.pending_clients.iter().map(|(addr, c)| (*addr, c.client_id)).collect()
+    }
+}
+
 fn find_client_mut_by_id(clients: &mut [Option<Connection>], client_id: u64) -> Option<&mut Connection> {
     clients.iter_mut().flatten().find(|c| c.client_id == client_id)
 }
